@@ -3,3 +3,4 @@ import UnifexModel.Core.Reflect
 import UnifexModel.Core.Admit
 import UnifexModel.Driver.Registry
 import UnifexModel.Props.C03
+import UnifexModel.Props.C17
